@@ -60,6 +60,9 @@ func c18Specs() []distSpec {
 		out = append(out, distSpec{"RandU", fmt.Sprintf("[%g,%g)", p[0], p[1]), false, p[0], p[1], func(s []int) (tensor.Tensor, error) { return tensor.RandU(s, p[0], p[1], T) }, true, 0})
 	}
 	out = append(out, distSpec{"RandU(untracked conf)", "[0,1)", false, 0, 1, func(s []int) (tensor.Tensor, error) { return tensor.RandU(s, 0, 1, nil) }, false, 0})
+	out = append(out, distSpec{"RandU(untracked conf)", "[-1,1)", false, -1, 1, func(s []int) (tensor.Tensor, error) { return tensor.RandU(s, -1, 1, nil) }, false, 0})
+	out = append(out, distSpec{"RandU(untracked conf)", "[0.5,1)", false, 0.5, 1, func(s []int) (tensor.Tensor, error) { return tensor.RandU(s, 0.5, 1, rt.Conf(false)) }, false, 0})
+	out = append(out, distSpec{"RandN(untracked conf)", "mean 3 sigma 2", true, 3, 2, func(s []int) (tensor.Tensor, error) { return tensor.RandN(s, 3, 2, nil) }, false, 0})
 	for _, p := range [][2]float64{{0, 1}, {5, 0.1}, {-2, 3}, {100, 25}, {0, 1e200}, {0, 1e-180}, {3, 1}, {-2, 1}, {1, 1}, {1, 2}} {
 		p := p
 		out = append(out, distSpec{"RandN", fmt.Sprintf("mean %g sigma %g", p[0], p[1]), true, p[0], p[1], func(s []int) (tensor.Tensor, error) { return tensor.RandN(s, p[0], p[1], T) }, true, 0})
@@ -301,7 +304,7 @@ func runC18(c *fw.Ctx) {
 	}
 	// large tensors: freshness inside one tensor (no repeated blocks / rows), moments, support
 	for _, d := range c18Specs() {
-		if d.params == "nil config" || d.params == "[0,1)" || d.params == "mean 0 sigma 1" || d.params == "fanIn 3" || d.params == "fanIn 2 fanOut 3" {
+		if d.params == "nil config" || d.params == "[0,1)" || d.params == "mean 0 sigma 1" || d.params == "fanIn 3" || d.params == "fanIn 2 fanOut 3" || d.params == "[-1,1)" || d.params == "[0.5,1)" || d.params == "mean 3 sigma 2" {
 			d := d
 			c.Case(func(k *fw.K) { c18FirstDraws(k, int64(c.Shard)); c18Large(k, d, c.Quick()) })
 		}
@@ -526,6 +529,16 @@ func c18Full(k *fw.K) {
 			if e := rt.Compare(t, ref.Full(s, f.want), 0, 0, nil, 0); e != nil {
 				k.Failf("Full(%v).Init(%v): %v", f.want, s, e)
 				return
+			}
+			if f.want == 0 { // "holds the configured constant": a zero keeps its sign (1/x tells them apart)
+				if got, err := rt.Read(t); err == nil {
+					for i, v := range got.Data {
+						if math.Signbit(v) != math.Signbit(f.want) {
+							k.Failf("Full(%v).Init(%v): element %d is %v: the sign of the configured zero was lost", f.want, s, i, v)
+							return
+						}
+					}
+				}
 			}
 			if st, ok := tensor.VerifGradState(t); ok && !st.Tracked {
 				k.Failf("Full(%v).Init(%v) returned an untracked tensor", f.want, s)
